@@ -38,7 +38,15 @@ def phases_for(pid, tier):
         'C14': [dict(name='asan', variant='asan', first=0, count=10**9, budget=b(30, 900), workers=WA, lines=1)],
         'C16': [dict(name='asan', variant='asan', first=0, count=10**9, budget=b(35, 900), workers=WA, lines=1)],
     }
-    return P[pid]
+    ph = P[pid]
+    if not q:
+        # thorough: the thread-using engines also run under ASan/UBSan (memory errors that only a particular worker schedule exposes);
+        # scheduling there is at thread-lifecycle / basic-block granularity and there is no race detector
+        if pid in ('C06', 'C05', 'C17', 'C01', 'C02', 'C09'):
+            ph = ph + [dict(name='asan', variant='asan', first=1 << 19, count=10**9, budget=b(0, 180), workers=WA, lines=1)]
+        if pid == 'C13':
+            ph = ph + [dict(name='values-asan', variant='asan', first=2 * GRID_MT, count=10**9, budget=b(0, 180), workers=WA, lines=1)]
+    return ph
 
 ENGINE = {'C13': 'h_mt', 'C06': 'h_cv', 'C05': 'h_cv', 'C17': 'h_sel', 'C01': 'h_pca', 'C02': 'h_pca', 'C09': 'h_cpca',
           'C18': 'h_live', 'C14': 'h_cont', 'C16': 'h_io'}
